@@ -140,6 +140,21 @@ func WriteCases(dir, header, caseType string, cases []string, mismatchFn string)
 	}
 }
 
+// WriteCasesSharded writes cases_<first index>.v files of at most perShard cases each (evaluated in parallel by bin/check).
+func WriteCasesSharded(dir, header, caseType string, cases []string, mismatchFn string, perShard int) {
+	for off := 0; off < len(cases) || off == 0; off += perShard {
+		end := off + perShard
+		if end > len(cases) {
+			end = len(cases)
+		}
+		sub := dir + "/.shard"
+		os.MkdirAll(sub, 0o755)
+		WriteCases(sub, header, caseType, cases[off:end], mismatchFn)
+		os.Rename(filepath.Join(sub, "cases.v"), filepath.Join(dir, fmt.Sprintf("cases_%06d.v", off)))
+		os.Remove(sub)
+	}
+}
+
 // Permutations of 0..n-1.
 func Permutations(n int) [][]int {
 	var res [][]int
